@@ -22,7 +22,7 @@ from harness import protocol as P
 from harness import scenarios as S
 from harness import forge as F
 from harness import kernel as K
-from harness.world import State, Endpoint, HarnessError, world_digest
+from harness.world import State, Endpoint, HarnessError, World, world_digest
 
 from ref import codec as RC
 from ref import keys as RK
@@ -856,6 +856,40 @@ def run_foreign_initiator(variant):
     return w, delivered, init.state.name
 
 
+TENANT_VARIANTS = [(order, second) for order in ('one-then-two', 'two-then-one')
+                   for second in ('own-credentials', 'credentials-of-the-other-connection')]
+
+
+def run_tenants(order, second):
+    """B listens on two addresses and serves the same remote address on each under a connection of its own (identities
+    and keys differ).  The peer sets up an IKE_SA on one pair of addresses, the daemons idle for a while, and then a
+    second IKE_SA is set up on the other pair: with that connection's credentials it must establish, with the credentials
+    of the connection already in use it must not."""
+    c = S.base_confs()
+    one_b = c['B']['conn_ba']
+    one_b['my_auth'] = {"id": "bob-one@openikev2", "psk": "key-of-bob-one"}
+    c['A']['conn_ab']['peer_auth'] = {"id": "bob-one@openikev2", "psk": "key-of-bob-one"}
+    c['B']['conn_b2a'] = S.conn(B2_ADDR, S.IP_A, "bob-two@openikev2", "alice-two@openikev2", "key-of-bob-two", "key-of-alice-two",
+                                [S.entry(9)])
+    c['A']['conn_ab2'] = S.conn(S.IP_A, B2_ADDR, "alice-two@openikev2", "bob-two@openikev2", "key-of-alice-two", "key-of-bob-two",
+                                [S.entry(7)])
+    first, then = (0, 1) if order == 'one-then-two' else (1, 0)
+    if second != 'own-credentials':
+        names = ['conn_ab', 'conn_ab2']
+        src, dst = c['A'][names[first]], c['A'][names[then]]
+        dst['my_auth'], dst['peer_auth'] = dict(src['my_auth']), dict(src['peer_auth'])
+    w = World(c, {'A': [S.IP_A], 'B': [S.IP_B, B2_ADDR]})
+    w.sent_log = []
+    w.step(('acquire', 'A', first, 0))
+    w.deliver_all()
+    for _ in range(3):
+        w.step(('tick', 1.0))
+        w.deliver_all()
+    w.step(('acquire', 'A', then, 0))
+    w.deliver_all()
+    return w, [B_ADDR, B2_ADDR][first], [B_ADDR, B2_ADDR][then]
+
+
 def run_mitm(variant):
     """Mallory runs IKE_SA_INIT with both sides (own DH, own nonces) and then tries to get through IKE_AUTH without a
     credential, using two real IkeSa objects as her protocol engine."""
@@ -1014,6 +1048,33 @@ def work(case):
             _, conf, guess = case[1].split('|')
             w, delivered = run_impostor_initiator(conf, bytes.fromhex(guess))
             confs = confs_named(conf)
+        elif case[1].startswith('tenants:'):
+            _, order, second = case[1].split(':')
+            w, addr1, addr2 = run_tenants(order, second)
+            b = w.endpoints['B']
+            res = []
+            if not b.alive or not w.endpoints['A'].alive:
+                res.append(('daemon-died', 'an endpoint died: %r' % ([e.dead_reason[:2] for e in w.endpoints.values() if not e.alive],)))
+                return res, (False, False), (w.endpoints['A'].alive, b.alive), world_digest(w)
+            on = {a: [s_ for s_ in b.controller.ike_sas if str(s_.my_addr) == a and s_.state == State.ESTABLISHED] for a in (addr1, addr2)}
+            sas = {a: [k for k in b.kernel.sad if a in (k[0], str(b.kernel.sad[k].get('saddr')))] for a in (addr1, addr2)}
+            if not on[addr1]:
+                res.append(('honest-handshake-fails:tenants:first', 'the first IKE_SA (on %s) is not established' % addr1))
+            elif second == 'own-credentials':
+                if not on[addr2] or not sas[addr2]:
+                    res.append(('honest-handshake-fails:tenants:second', 'with an IKE_SA established on %s, the one on %s - another '
+                                'connection, with its own credentials - does not establish (IKE_SAs of B: %s)' % (
+                                    addr1, addr2, [(str(x.my_addr), x.state.name) for x in b.controller.ike_sas])))
+                else:
+                    ids = bytes(on[addr2][0].configuration.peer_auth.id.id_data)
+                    want = b'alice-two@openikev2' if addr2 == B2_ADDR else b'alice@openikev2'
+                    if ids != want:
+                        res.append(('wrong-connection', 'the IKE_SA on %s runs under the connection that expects %r' % (addr2, ids)))
+            elif on[addr2] or sas[addr2]:
+                res.append(('established-with-other-connections-credentials', 'on %s the initiator presented the identity and key '
+                            'of the connection of %s, and B established the IKE_SA (SAs in its kernel for that address: %d)' % (
+                                addr2, addr1, len(sas[addr2]))))
+            return res, (bool(on[addr1]), bool(on[addr2])), (True, True), world_digest(w)
         elif case[1].startswith('foreign-initiator:'):
             variant = case[1].split(':')[1]
             w, delivered, end = run_foreign_initiator(variant)
@@ -1087,6 +1148,7 @@ def main():
               for g in (b'', b'testing2', b'alice@openikev2', b'testing-not', b'skip-auth')]
     cases += [('mitm', 'impostor-initiator|%s|%s' % (c, b'replay-recorded-auth'.hex())) for c in ('psk', 'rsa')]
     cases += [('mitm', 'foreign-initiator:%s' % v) for v in FOREIGN_INIT_VARIANTS]
+    cases += [('mitm', 'tenants:%s:%s' % v) for v in TENANT_VARIANTS]
     outcomes = collections.Counter()
     n_est = 0
     results = ck.pmap(work, cases)
